@@ -27,6 +27,9 @@ pub struct Program {
     pub tasks: Vec<Vec<Pair>>,
     /// a clock task that advances the virtual clock by this many ms at a scheduler-chosen point
     pub clock_step_ms: Option<u64>,
+    /// further steps the clock task performs after the first one (a full lap of the 10 s ring among them)
+    #[serde(default)]
+    pub more_steps_ms: Vec<u64>,
 }
 
 pub struct C14;
@@ -68,9 +71,12 @@ impl Prop for C14 {
             .map(|_| (0..rng.range(1, 2)).map(|_| Pair { inb: rng.chance(1, 2), n: rng.range(1, 3) as u32, exit: !rng.chance(1, 5) }).collect())
             .collect();
         let clock_step_ms = if rng.chance(1, 3) { Some(*rng.pick(&[1u64, 100, 499, 500, 501, 1000, 10_000])) } else { None };
+        // one stepped program in three: a second step of about one lap of the 10 s ring, so that a
+        // bucket written with response times before it is reused afterwards
+        let more_steps_ms = if clock_step_ms.is_some() && rng.chance(1, 2) { vec![*rng.pick(&[10_000u64, 10_000, 9_500, 20_000])] } else { vec![] };
         // inside a bucket, 100..300 ms after a bucket start (so a frozen clock stays in one bucket)
         let epoch_ns = slot_ns - slot_ns % (10 * SEC) + rng.range(100, 300) * MS + if clock_step_ms.is_some() { rng.below(400) * MS } else { 0 };
-        let program = Program { res: format!("c14_{:x}", rng.below(0xffffff)), precreate: avoid || rng.chance(1, 3), tasks, clock_step_ms };
+        let program = Program { res: format!("c14_{:x}", rng.below(0xffffff)), precreate: avoid || rng.chance(1, 3), tasks, clock_step_ms, more_steps_ms };
         json!({"epoch_ns": epoch_ns, "schedule": gen_schedule(rng, 150), "program": program})
     }
 
@@ -81,7 +87,10 @@ impl Prop for C14 {
         if prog.clock_step_ms.is_some() {
             cov.hit("clock_step_between_sync_ops");
         }
-        cov.sim_ns += prog.clock_step_ms.unwrap_or(0) * MS;
+        if !prog.more_steps_ms.is_empty() {
+            cov.hit("second_clock_step_of_a_ring_lap");
+        }
+        cov.sim_ns += (prog.clock_step_ms.unwrap_or(0) + prog.more_steps_ms.iter().sum::<u64>()) * MS;
         execute_sched(self.id(), "", scenario, 30_000, cov, move |obs: Obs| body(epoch_ns, &prog, obs))
     }
 
@@ -106,9 +115,17 @@ impl Prop for C14 {
                 out.push(c);
             }
         }
+        if !prog.more_steps_ms.is_empty() {
+            let mut p = prog.clone();
+            p.more_steps_ms.clear();
+            let mut c = scenario.clone();
+            c["program"] = serde_json::to_value(p).unwrap();
+            out.push(c);
+        }
         if prog.clock_step_ms.is_some() {
             let mut p = prog.clone();
             p.clock_step_ms = None;
+            p.more_steps_ms.clear();
             let mut c = scenario.clone();
             c["program"] = serde_json::to_value(p).unwrap();
             out.push(c);
@@ -126,6 +143,8 @@ struct Tally {
     inb_pass: u64,
     inb_complete: u64,
     inb_open: u32,
+    /// per exited entry: (virtual ns just after exit returned, upper bound of its response time in ms, inbound)
+    rts: Vec<(u64, u64, bool)>,
 }
 
 fn body(epoch_ns: u64, prog: &Program, obs: Obs) {
@@ -144,6 +163,7 @@ fn body(epoch_ns: u64, prog: &Program, obs: Obs) {
                 let b = EntryBuilder::new(res.clone())
                     .with_batch_count(p.n)
                     .with_traffic_type(if p.inb { TrafficType::Inbound } else { TrafficType::Outbound });
+                let before_build = vc::now_ns();
                 match b.build() {
                     Ok(e) => {
                         let node = e.context().read().unwrap().stat_node();
@@ -151,7 +171,11 @@ fn body(epoch_ns: u64, prog: &Program, obs: Obs) {
                         if p.exit {
                             e.exit();
                         }
+                        let after_exit = vc::now_ns();
                         let mut t = tally.lock().unwrap();
+                        if p.exit {
+                            t.rts.push((after_exit, (after_exit - before_build + MS - 1) / MS, p.inb));
+                        }
                         t.node_ptrs.push(ptr);
                         t.pass += p.n as u64;
                         if p.inb {
@@ -177,10 +201,15 @@ fn body(epoch_ns: u64, prog: &Program, obs: Obs) {
         }));
     }
     if let Some(ms) = prog.clock_step_ms {
+        let more = prog.more_steps_ms.clone();
         handles.push(shuttle::thread::spawn(move || {
             shuttle::thread::yield_now();
             vc::advance(ms * MS);
             shuttle::thread::yield_now();
+            for m in more {
+                vc::advance(m * MS);
+                shuttle::thread::yield_now();
+            }
         }));
     }
     for h in handles {
@@ -216,6 +245,16 @@ fn body(epoch_ns: u64, prog: &Program, obs: Obs) {
         }
         if frozen && got < want {
             oracle_fail!(format!("C14/totals/{}-lost", name), "{} total {} < sum over threads {} although all activity fell into one bucket", name, got, want);
+        }
+    }
+    // response-time totals never exceed what the entries still inside the 10 s window can have recorded
+    let now = vc::now_ns();
+    let window_start = now / MS / 500 * 500 - 9_500;
+    for (name, reader, only_inb) in [("rt", &ten, false), ("inbound-rt", &inb_ten, true)] {
+        let bound: u64 = t.rts.iter().filter(|(after, _, inb)| after / MS >= window_start && (!only_inb || *inb)).map(|(_, b, _)| *b).sum();
+        let got = reader.sum(MetricEvent::Rt);
+        if got > bound {
+            oracle_fail!(format!("C14/totals/{}-exceeds-recorded", name), "{} total {} ms > {} ms, the most the completions inside the window can have recorded", name, got, bound);
         }
     }
     if frozen && ten.sum(MetricEvent::Rt) != 0 {
